@@ -7,7 +7,7 @@ except ImportError:
     import sre_parse, sre_constants as sre_c
 
 ASCII_POOL = [chr(i) for i in range(32,127)]
-def _in_chars(items, rng, flags):
+def _in_chars(items, rng, flags, ascii_only=False):
     neg=False; pos=[]
     cats=[]
     for op,av in items:
@@ -28,17 +28,17 @@ def _in_chars(items, rng, flags):
         pool=list(pos)
         if cats: pool += [ch for ch in ASCII_POOL if catmatch(ch)]
         return rng.choice(pool)
-    pool=[ch for ch in ASCII_POOL+["\n","§","é","“"] if ch not in pos and not catmatch(ch)]
+    pool=[ch for ch in ASCII_POOL+(["\n"] if ascii_only else ["\n","§","é","“"]) if ch not in pos and not catmatch(ch)]
     return rng.choice(pool)
 
-def sample(pattern, rng, flags=0, maxrep=3):
+def sample(pattern, rng, flags=0, maxrep=3, ascii_only=False):
     tree = sre_parse.parse(pattern, flags)
     out=[]
     def cat_char(av):
         if av is sre_c.CATEGORY_DIGIT: return rng.choice("0123456789")
         if av is sre_c.CATEGORY_SPACE: return rng.choice(" \t\n")
         if av is sre_c.CATEGORY_WORD: return rng.choice("abcXYZ019_")
-        if av is sre_c.CATEGORY_NOT_SPACE: return rng.choice("aZ9.,;§")
+        if av is sre_c.CATEGORY_NOT_SPACE: return rng.choice("aZ9.,;" if ascii_only else "aZ9.,;§")
         if av is sre_c.CATEGORY_NOT_DIGIT: return rng.choice("aZ .,")
         if av is sre_c.CATEGORY_NOT_WORD: return rng.choice(" .,;-")
         raise NotImplementedError(av)
@@ -50,8 +50,8 @@ def sample(pattern, rng, flags=0, maxrep=3):
                 out.append(ch)
             elif op is sre_c.NOT_LITERAL:
                 out.append(rng.choice([c for c in "aZ 9.," if c!=chr(av)]))
-            elif op is sre_c.ANY: out.append(rng.choice("aZ9 .,§"))
-            elif op is sre_c.IN: out.append(_in_chars(av, rng, flags))
+            elif op is sre_c.ANY: out.append(rng.choice("aZ9 .," if ascii_only else "aZ9 .,§"))
+            elif op is sre_c.IN: out.append(_in_chars(av, rng, flags, ascii_only))
             elif op is sre_c.CATEGORY: out.append(cat_char(av))
             elif op is sre_c.BRANCH:
                 alts=av[1]
